@@ -48,7 +48,7 @@ MUTANTS = [
     ('C04-pad-ones', ['C04', 'C02'], 'encoder.py', "bit_writer.write_bin('0' * nbits_padding_for_octet)", "bit_writer.write_bin('1' * nbits_padding_for_octet)"),
     ('C05-no-plus-one', ['C05'], 'encoder.py', "            min_value, max_value = state.minmax(values)\n            nbits_diff = nbits_for_uint(max_value - min_value + 1)\n            # Subtract",
      "            min_value, max_value = state.minmax(values)\n            nbits_diff = nbits_for_uint(max_value - min_value)\n            # Subtract"),
-    ('C05-alias-uncompressed', ['C05'], 'coder.py', "            self.bitmap_links_all_subsets = [{} for _ in range(n_subsets)]", "            self.bitmap_links_all_subsets = [{}] * n_subsets"),
+    ('C05-alias-uncompressed', ['C05', 'C06', 'C07', 'C09'], 'coder.py', "            self.bitmap_links_all_subsets = [{} for _ in range(n_subsets)]", "            self.bitmap_links_all_subsets = [{}] * n_subsets"),
     ('C06-drop-reset', ['C06', 'C07'], 'coder.py', "        self.new_refvals = {}\n        self.decoded_descriptors = self.decoded_descriptors_all_subsets[idx_subset]",
      "        self.decoded_descriptors = self.decoded_descriptors_all_subsets[idx_subset]"),
     ('C06-switch-after', ['C06'], 'decoder.py', "                state.switch_subset_context(idx_subset)\n                template_processing_func(state, bit_reader, template_to_process)",
@@ -80,6 +80,31 @@ MUTANTS = [
     ('C19-read-int-width', ['C19'], 'bitops.py', "self.read_uint(nbits - 1)", "self.read_uint(nbits)"),
     ('C19-set-uint-24', ['C19'], 'bitops.py', "bins = bitstring.Bits(uintbe=value, length=nbits)", "bins = bitstring.Bits(uintbe=value, length=24)"),
     ('C20-swap-b-d', ['C20'], 'decoder.py', "TableGroupCacheManager.add_extra_entries(b_entries, d_entries)", "TableGroupCacheManager.add_extra_entries(d_entries, b_entries)"),
+    # --- wave 2: rules added after the second round of seeded changes and the C12 defects
+    ('C12-bool-unsized', ['C12', 'C19'], 'bitops.py', "self._bit_stream_read('uint:1') == 1", "self._bit_stream_read('bool')"),
+    ('C12-factor-unguarded', ['C12'], 'coder.py', "        if not isinstance(descriptor, ElementDescriptor):\n            # e.g.", "        if descriptor is None:\n            # e.g."),
+    ('C12-stopiteration', ['C12'], 'tables.py', "                except StopIteration:\n                    raise PyBufrKitError(", "                except KeyError:\n                    raise PyBufrKitError("),
+    ('C06-shared-default-list', ['C06', 'C13'], 'coder.py', "        self.nbits_of_associated = []  # 204\n        self.nbits_of_skipped_local_descriptor = 0  # 206\n\n        self.bsr_modifier = BSRModifier(\n            nbits_increment=0, scale_increment=0, refval_factor=1\n        )  # 207\n\n        self.new_nbytes = 0  # 208\n\n        self.data_not_present_count = 0  # 221\n        self.status_qa_info_follows = QA_INFO_NA  # 222\n\n        self.bitmap = None",
+     "        self.nbits_of_associated = NO_ASSOCIATED  # 204\n        self.nbits_of_skipped_local_descriptor = 0  # 206\n\n        self.bsr_modifier = BSRModifier(\n            nbits_increment=0, scale_increment=0, refval_factor=1\n        )  # 207\n\n        self.new_nbytes = 0  # 208\n\n        self.data_not_present_count = 0  # 221\n        self.status_qa_info_follows = QA_INFO_NA  # 222\n\n        self.bitmap = None"),
+    ('C06-wire-skip-equal', ['C06'], 'templatedata.py', "            self.bitmap_links = self.bitmap_links_all_subsets[idx_subset]\n\n            # The index is used",
+     "            self.bitmap_links = self.bitmap_links_all_subsets[idx_subset]\n            if idx_subset > 0 and self.decoded_descriptors == self.decoded_descriptors_all_subsets[idx_subset - 1]:\n                self.decoded_nodes_all_subsets[idx_subset] = self.decoded_nodes_all_subsets[idx_subset - 1]\n                continue\n\n            # The index is used"),
+    ('C05-compressed-not-shared', ['C05'], 'coder.py', "            self.bitmap_links_all_subsets = [{}] * n_subsets", "            self.bitmap_links_all_subsets = [{} for _ in range(n_subsets)]"),
+    ('C13-overrides-pop', ['C13'], 'bufr.py', "overrides.get(parameter.name, values[idx])", "overrides.pop(parameter.name, values[idx])"),
+    ('C09-node-not-registered', ['C09', 'C07'], 'templatedata.py', "            node.add_attribute(assoc_node)\n            self.add_node(node)", "            node.add_attribute(assoc_node)\n            self.decoded_nodes.append(node)"),
+    ('C09-221-elements-only', ['C09', 'C07'], 'templatedata.py', "            if self.data_not_present_count:\n                self.data_not_present_count -= 1\n                if isinstance(member, ElementDescriptor):\n                    X = member.X\n                    if not (1 <= X <= 9 or X == 31):  # skipping\n                        self.add_node(NoValueDataNode(member))\n                        continue",
+     "            if self.data_not_present_count and isinstance(member, ElementDescriptor):\n                self.data_not_present_count -= 1\n                X = member.X\n                if not (1 <= X <= 9 or X == 31):  # skipping\n                    self.add_node(NoValueDataNode(member))\n                    continue"),
+    ('C08-compiler-031011', ['C08'], 'templatecompiler.py', "        if descriptor.id in (31011, 31012):", "        if descriptor.factor.id in (31011, 31012):"),
+    ('C15-print-drops-all-subsets', ['C15'], 'dataquery.py', "ret = '' if self.subset_slice is None else", "ret = '' if self.subset_slice in (None, slice(None)) else"),
+    ('C16-zero-count-attribute', ['C16'], 'dataquery.py', "        path_component = path_components[0]\n\n        sub_nodes = []\n        if path_component.separator == PATH_SEPARATOR_CHILD:\n            sub_nodes += self.filter_for_child_sub_nodes(node, path_components)",
+     "        path_component = path_components[0]\n        if isinstance(node, (FixedReplicationNode, DelayedReplicationNode)) and len(node.members) == 0:\n            return []\n\n        sub_nodes = []\n        if path_component.separator == PATH_SEPARATOR_CHILD:\n            sub_nodes += self.filter_for_child_sub_nodes(node, path_components)"),
+    ('C19-dispatch-bytes-width', ['C19'], 'bitops.py', "        if data_type == 'bytes':\n            return func(value, nbits // NBITS_PER_BYTE)\n        elif data_type in ('bool', 'bin'):\n            return func(value)\n        else:\n            return func(value, nbits)",
+     "        if data_type in ('bytes', 'bool', 'bin'):\n            return func(value)\n        else:\n            return func(value, nbits)"),
+    ('C19-set-uint-mask', ['C19'], 'bitops.py', "    def set_uint(self, value, nbits, bitpos):\n        import bitstring\n", "    def set_uint(self, value, nbits, bitpos):\n        import bitstring\n        value = int(value) & NUMERIC_MISSING_VALUES[nbits]\n"),
+    ('C02-codeflag-missing-minus-min', ['C02', 'C05', 'C10'], 'encoder.py', "            for idx, value in enumerate(values):\n                if value is None:\n                    value = NUMERIC_MISSING_VALUES[nbits_diff]\n                else:\n                    value -= min_value\n                values[idx] = value\n\n        bit_writer.write_uint(min_value, nbits_min_value)\n        bit_writer.write_uint(nbits_diff, NBITS_FOR_NBITS_DIFF)\n\n        if nbits_diff:\n            for value in values:\n                bit_writer.write_uint(value, nbits_diff)\n\n    def process_new_refval(",
+     "            missing = NUMERIC_MISSING_VALUES[nbits_diff]\n            values = [(missing if value is None else value) - min_value for value in values]\n\n        bit_writer.write_uint(min_value, nbits_min_value)\n        bit_writer.write_uint(nbits_diff, NBITS_FOR_NBITS_DIFF)\n\n        if nbits_diff:\n            for value in values:\n                bit_writer.write_uint(value, nbits_diff)\n\n    def process_new_refval("),
+    ('C14-flatten-reversed', ['C14', 'C08'], 'descriptors.py', "                members = member.members + members\n", "                members = member.members[::-1] + members\n"),
+    ('C04-serialized-from-declared', ['C04', 'C11'], 'decoder.py', "            if info_only:\n                bufr_message.serialized_bytes = s[idx_start: idx_start + bufr_message.length.value]\n            else:\n",
+     "            bufr_message.serialized_bytes = s[idx_start: idx_start + bufr_message.length.value]\n            if not info_only:\n"),
     ('C20-drop-next-value', ['C20'], 'dataprocessor.py', "                next_value().rstrip() + next_value().rstrip(),\n                next_value().strip(),", "                next_value().rstrip(),\n                next_value().strip(),"),
 ]
 
@@ -116,10 +141,24 @@ TWINS = [
     ('T-write-int-abs', ['C19'], 'bitops.py', "        self.write_bool(value < 0)\n        self.write_uint(abs(value), nbits - 1)", "        negative = value < 0\n        self.write_bool(negative)\n        self.write_uint(-value if negative else value, nbits - 1)"),
     ('T-lookup-get', ['C14'], 'tables.py', "        try:\n            descriptor = self.descriptors[id_]\n        except KeyError:\n            descriptor = UndefinedSequenceDescriptor(id_)\n\n        return descriptor",
      "        descriptor = self.descriptors.get(id_)\n        if descriptor is None:\n            descriptor = UndefinedSequenceDescriptor(id_)\n\n        return descriptor"),
+    # --- wave 2 twins
+    ('T-read-bool-ne0', ['C12', 'C19'], 'bitops.py', "self._bit_stream_read('uint:1') == 1", "self._bit_stream_read('uint:1') != 0"),
+    ('T-factor-guard-type', ['C12', 'C01', 'C08'], 'coder.py', "        if not isinstance(descriptor, ElementDescriptor):\n            # e.g.", "        if not isinstance(descriptor, (ElementDescriptor,)):\n            # e.g."),
+    ('T-reset-by-table', ['C06', 'C13', 'C07'], 'coder.py', "        self.nbits_offset = 0  # 201\n        self.scale_offset = 0  # 202\n\n        self.nbits_of_new_refval = 0  # 203\n\n        self.nbits_of_associated = []  # 204",
+     "        for name, value in SCALAR_DEFAULTS:\n            setattr(self, name, value)\n\n        self.nbits_of_associated = []  # 204"),
+    ('T-overrides-copy-then-pop', ['C13'], 'bufr.py', "            for idx, parameter in enumerate(section):\n                parameter.value = values[idx] if overrides is None else overrides.get(parameter.name, values[idx])",
+     "            overrides = dict(overrides or {})\n            for idx, parameter in enumerate(section):\n                parameter.value = overrides.pop(parameter.name, values[idx])"),
+    ('T-add-node-inline', ['C09', 'C07'], 'templatedata.py', "            node.add_attribute(assoc_node)\n            self.add_node(node)", "            node.add_attribute(assoc_node)\n            self.decoded_nodes.append(node)\n            self.index_to_node[node.index] = node"),
+    ('T-flatten-deque', ['C14', 'C08'], 'descriptors.py', "        members = list(self.members)\n        while members:\n            member = members.pop(0)\n            ret.append(member.id)\n            if isinstance(member, ReplicationDescriptor):\n                if isinstance(member, DelayedReplicationDescriptor):\n                    ret.append(member.factor.id)\n                members = member.members + members\n",
+     "        from collections import deque\n        members = deque(self.members)\n        while members:\n            member = members.popleft()\n            ret.append(member.id)\n            if isinstance(member, ReplicationDescriptor):\n                if isinstance(member, DelayedReplicationDescriptor):\n                    ret.append(member.factor.id)\n                members.extendleft(reversed(member.members))\n"),
+    ('T-wire-range-var', ['C06', 'C09', 'C05'], 'templatedata.py', "        for idx_subset in range(n_subsets):\n            self.decoded_nodes = self.decoded_nodes_all_subsets[idx_subset]", "        for k in range(n_subsets):\n            idx_subset = k\n            self.decoded_nodes = self.decoded_nodes_all_subsets[idx_subset]"),
+    ('T-dispatch-floordiv', ['C19'], 'bitops.py', "            return func(value, nbits // NBITS_PER_BYTE)\n        elif data_type in ('bool', 'bin'):\n            return func(value)", "            return func(value, nbits >> 3)\n        elif data_type in ('bool', 'bin'):\n            return func(value)"),
     ('T-extra-entries-loop', ['C20'], 'tables.py', "        self.extra_b_entries.update(b_entries)\n        self.extra_d_entries.update(d_entries)", "        for k, v in b_entries.items():\n            self.extra_b_entries[k] = v\n        for k, v in d_entries.items():\n            self.extra_d_entries[k] = v"),
 ]
 
 EXTRA_FILES = {
+    'C06-shared-default-list': ('coder.py', "log = logging.getLogger(__file__)\n", "log = logging.getLogger(__file__)\nNO_ASSOCIATED = []\n"),
+    'T-reset-by-table': ('coder.py', "log = logging.getLogger(__file__)\n", "log = logging.getLogger(__file__)\nSCALAR_DEFAULTS = (('nbits_offset', 0), ('scale_offset', 0), ('nbits_of_new_refval', 0))\n"),
     # helper needed by twin T-reset-via-helper
     'T-reset-via-helper': ('coder.py', "    def mark_back_reference_boundary(self):", "    def _reset_201_202(self):\n        self.nbits_offset = 0  # 201\n        self.scale_offset = 0  # 202\n\n    def mark_back_reference_boundary(self):"),
 }
